@@ -249,6 +249,7 @@ def judge(ctx: Ctx, rig: Rig, case: dict[str, Any]) -> None:
     from vgi_rpc import logging_utils as LU
 
     shape, word, variant, leaf, red = case["shape"], case["word"], case["variant"], case["leaf"], case["redactor"]
+    rep = dict(case, shape=json.dumps(shape))  # a string: the runner's JSON conversion is depth-limited
     skey = spell(word, variant)
     assert skey is not None
     tword = WORDS[(WORDS.index(word) + 7) % len(WORDS)]
@@ -269,9 +270,9 @@ def judge(ctx: Ctx, rig: Rig, case: dict[str, Any]) -> None:
         LU.set_claim_redactor(old)
     desc = {"word": word, "variant": variant, "leaf": leaf, "redactor": red}
     if res != 5:
-        ctx.fail(f"call-failed:{red}", f"authenticated call failed with {res!r} for claims {claims!r}", case)
+        ctx.fail(f"call-failed:{red}", f"authenticated call failed with {res!r} for claims {claims!r}", rep)
     if len(lines) != 1:
-        ctx.fail("record-count", f"{len(lines)} access records for one call (claims {claims!r})", case)
+        ctx.fail("record-count", f"{len(lines)} access records for one call (claims {claims!r})", rep)
         ctx.case(outcome=("nrec", len(lines)))
         return
     text = lines[0]
@@ -283,7 +284,7 @@ def judge(ctx: Ctx, rig: Rig, case: dict[str, Any]) -> None:
             ctx.fail(
                 f"failing-redactor-not-closed:{red}",
                 f"redactor raised but the record carries claims={logged!r} (markers {leaked!r}); input {claims!r}",
-                case,
+                rep,
             )
         ctx.case(nontrivial=f"raise:{red}:{'S' if b.tainted else 'n'}", outcome=("raise", logged is None, bool(leaked)))
         return
@@ -298,11 +299,11 @@ def judge(ctx: Ctx, rig: Rig, case: dict[str, Any]) -> None:
                     leak_key(sp),
                     f"value under sensitive claim key {sp[-1]!r} at path {sp!r} reached the access log: logged claims "
                     f"{logged!r} (input {claims!r})",
-                    case,
+                    rep,
                 )
                 break
         else:
-            ctx.fail("leak:elsewhere", f"tainted markers {leaked!r} in record {text[:600]}", case)
+            ctx.fail("leak:elsewhere", f"tainted markers {leaked!r} in record {text[:600]}", rep)
     for sp in b.spaths:
         ok, val = lookup(logged, sp)
         if not ok:
@@ -310,7 +311,7 @@ def judge(ctx: Ctx, rig: Rig, case: dict[str, Any]) -> None:
             ctx.fail(
                 "key-not-visible:" + ("top-level" if len(sp) == 1 else "nested"),
                 f"sensitive key at {sp!r} is not visible in the logged claims {logged!r} (input {claims!r})",
-                case,
+                rep,
             )
     nt = None
     if logged is not None and b.classes:
@@ -354,14 +355,7 @@ def run(ctx: Ctx) -> None:
 
 
 def replay(ctx: Ctx, case: dict[str, Any]) -> None:
-    def fix(s: Any) -> Any:
-        if s == "L":
-            return s
-        if s[0] == "O":
-            return ["O", [(kc, fix(v)) for kc, v in s[1]]]
-        return ["A", [fix(v) for v in s[1]]]
-
-    case = dict(case, shape=fix(case["shape"]))
+    case = dict(case, shape=json.loads(case["shape"]))
     rig = Rig()
     try:
         judge(ctx, rig, case)
